@@ -91,7 +91,8 @@ func TestC09_AcceptorSocket(t *testing.T) {
 		t.Skip("thorough tier only")
 	}
 	c := c09()
-	dynamic := vk.Seed()%2 == 0
+	shard, _ := vk.Shard()
+	dynamic := (int(vk.Seed())+shard)%2 == 0
 	r, err := newSockRig(t, dynamic)
 	if err != nil {
 		t.Skipf("cannot listen on loopback: %v", err)
@@ -160,6 +161,9 @@ func TestC09_AcceptorSocket(t *testing.T) {
 			n++
 			c.Eval()
 			c.Class("target:acceptor-socket")
+			if dynamic {
+				c.Class("socket:dynamic-sessions")
+			}
 			c.Class("socket-first:" + first)
 			c.NonTrivial(stats.Hash("sock", stream))
 			c.SampleClass("acceptor-socket/"+first, vk.Show(clipB(stream)))
